@@ -282,7 +282,7 @@ Section Rescan.
     pscan (64 :: 40 :: x ++ [41] ++ f) = (S.EXPRESSION, x, f).
   Proof.
     intros Hc. unfold pscan. cbn [SP.p_scan]. change (64 =? S.r_at) with true. change (40 =? S.r_lparen) with true.
-    cbv iota. unfold SP.p_scan_expr. cbn [app]. rewrite (Hc f). reflexivity.
+    cbv iota. unfold SP.p_scan_expr. change (x ++ [41] ++ f) with (x ++ S.r_rparen :: f). rewrite (Hc f). reflexivity.
   Qed.
 
   Variable ctxmap : text -> text.
@@ -303,20 +303,20 @@ Section Rescan.
     pose proof (closed_print3 t L Hs) as Hclosed.
     destruct (is_valid_identifier (print3 t)) eqn:Ev.
     - destruct (separate_from_cases isln lower_rune (64 :: print3 t) f) as [E|E].
-      + left. fold sep in E. rewrite E. cbn [app].
+      + left. rewrite E. cbn [app].
         destruct (is_prefix [64; 40] (64 :: print3 t)) eqn:Epre.
         * (* the text would start with "(": impossible for a valid identifier *)
-          exfalso. cbn [is_prefix] in Epre. destruct (print3 t) as [|c r] eqn:Ept; [discriminate|].
-          rewrite N.eqb_refl in Epre. cbn [andb] in Epre. destruct (c =? 40) eqn:Ec; [|discriminate].
-          apply N.eqb_eq in Ec. subst c. cbn [is_valid_identifier] in Ev. change (uletter 40) with false in Ev.
+          exfalso. destruct (print3 t) as [|c r] eqn:Ept; [cbn in Epre; discriminate|].
+          cbn [is_prefix] in Epre. rewrite N.eqb_refl in Epre. cbn [andb] in Epre.
+          apply andb_true_iff in Epre. destruct Epre as [Ec _]. apply N.eqb_eq in Ec. subst c. cbn [is_valid_identifier] in Ev. change (uletter 40) with false in Ev.
           discriminate Ev.
         * apply bare_identifier_rescans; try assumption.
           constructor; [discriminate|exact Hnul].
-      + right. fold sep in E. rewrite E. cbn [tl].
+      + right. rewrite E. cbn [tl].
         change ((64 :: 40 :: print3 t ++ [41]) ++ f) with (64 :: 40 :: (print3 t ++ [41]) ++ f).
         rewrite <- app_assoc. apply parenthesized_rescans. exact Hclosed.
     - right.
-      destruct (separate_from_cases isln lower_rune (64 :: 40 :: print3 t ++ [41]) f) as [E|E]; fold sep in E; rewrite E.
+      destruct (separate_from_cases isln lower_rune (64 :: 40 :: print3 t ++ [41]) f) as [E|E]; rewrite E.
       + change ((64 :: 40 :: print3 t ++ [41]) ++ f) with (64 :: 40 :: (print3 t ++ [41]) ++ f).
         rewrite <- app_assoc. apply parenthesized_rescans. exact Hclosed.
       + exfalso. unfold sep, separate_from in E. rewrite Hflag in E. cbn [negb is_prefix] in E.
@@ -324,3 +324,52 @@ Section Rescan.
         apply (f_equal (@length N)) in E. cbn in E. rewrite !app_length in E. cbn in E. lia.
   Qed.
 End Rescan.
+
+(* ---------------------------------------------------------------------------------------------- *)
+(* table obligation: the migrator separates identifiers from the text that follows (fix db33e56) *)
+Lemma separates : separates_identifiers = true.
+Proof. reflexivity. Qed.
+
+(* without separateFrom the statement is false: @contact.name followed by s is read as @contact.names *)
+Lemma glue_without_separation :
+  exists x f, SP.p_scan isln_approx lower_cp (Some run_top_levels) true (64 :: x ++ f) <> (S.IDENTIFIER, x, f).
+Proof.
+  exists [99; 111; 110; 116; 97; 99; 116; 46; 110; 97; 109; 101], [115]. vm_compute. discriminate.
+Qed.
+
+(* the hypotheses of rescan_expression are satisfiable: @(contact.name)s and @(SUM(1, 2) * 3) th *)
+Example rescan_example :
+  let ctx := fun n => lower n in
+  exists e t, parse1 [99; 111; 110; 116; 97; 99; 116; 46; 110; 97; 109; 101] = Some e /\ mt ctx false e = Some t /\
+    scan_lits t = true /\
+    fst (migrate_seg ctx false false false printable_approx isln_approx lower_cp
+           (SExpr [99; 111; 110; 116; 97; 99; 116; 46; 110; 97; 109; 101]) [115])
+    = [64; 40; 99; 111; 110; 116; 97; 99; 116; 46; 110; 97; 109; 101; 41].
+Proof.
+  cbn zeta. eexists. eexists. split; [vm_compute; reflexivity|]. split; [vm_compute; reflexivity|].
+  split; vm_compute; reflexivity.
+Qed.
+
+(* ---------------------------------------------------------------------------------------------- *)
+(* coverage of the hypotheses on the cases of a run: as LegacyProofs.check_hyp, and additionally [scan_lits] of the
+   intended tree of every expression token of a clean case *)
+Definition hyp_seg2 (ctx : text -> text) (raw_dates : bool) (s : seg) : bool :=
+  match s with
+  | SExpr t =>
+      if text_eqb t t_empty_literal then true
+      else match parse1 t with
+           | Some e => match mt ctx raw_dates e with Some tr => scan_lits tr | None => false end
+           | None => false
+           end
+  | _ => hyp_seg ctx raw_dates s
+  end.
+
+Fixpoint hyp_mismatches2_from (i : N) (ks : list (lcase * bool)) : list N :=
+  match ks with
+  | [] => []
+  | (k, clean) :: rest =>
+      (if negb clean || forallb (hyp_seg2 (ctx_of (k_ctx k)) (k_raw_dates k)) (k_segs k) then [] else [i])
+      ++ hyp_mismatches2_from (i + 1) rest
+  end.
+
+Definition hyp_mismatches2 (ks : list (lcase * bool)) : list N := hyp_mismatches2_from 0 ks.
